@@ -1587,6 +1587,107 @@ func (fc *FC) noFlip(carried []*RF) []Assumption {
 	return as
 }
 
+// lockStepCounters: among the loop-carried quantities phis, integer counters
+// of one loop that advance by the same constant are one quantity: each later
+// one is written as the first plus the constant difference of their initial
+// values (lock), and dropped from the list — unless fewer than minKeep would remain.
+func (b *B) lockStepCounters(fc *FC, phis []*RF, minKeep int) ([]*RF, map[AtomID]*RF) {
+	lock := map[AtomID]*RF{}
+	type ctr struct {
+		p          *RF
+		init, step *RF
+		hdr        *ssa.BasicBlock
+	}
+	var ctrs []ctr
+	var kept []*RF
+	for _, p := range phis {
+		at := p.SingleAtom()
+		if at == nil || !at.Int || b.X.phiOf[at.ID] == nil {
+			kept = append(kept, p)
+			continue
+		}
+		in, nx := recurrenceOrNil(fc, p)
+		if in == nil {
+			kept = append(kept, p)
+			continue
+		}
+		st := nx.Sub(p)
+		if _, isC := st.IsConst(); !isC {
+			kept = append(kept, p)
+			continue
+		}
+		merged := false
+		for _, c := range ctrs {
+			if c.hdr == b.X.phiOf[at.ID].Block() && c.step.Equal(st) {
+				if d, isC := in.Sub(c.init).IsConst(); isC && d.IsInt() {
+					lock[at.ID] = c.p.Add(fc.X.S.Const(d))
+					merged = true
+					break
+				}
+			}
+		}
+		if !merged {
+			ctrs = append(ctrs, ctr{p, in, st, b.X.phiOf[at.ID].Block()})
+			kept = append(kept, p)
+		}
+	}
+	if len(lock) > 0 && len(kept) >= minKeep {
+		return kept, lock
+	}
+	return phis, map[AtomID]*RF{}
+}
+
+// ExitValues: after FullScan has established that the loop driving idx visits
+// idx = 0 … n-1 once each in order and is left only when its guard fails, the
+// loop's counter — and every counter in lock-step with it among the
+// quantities reachable from `from` — has a known value once the loop is left:
+// the one that makes idx equal n. Returned as a substitution for values read
+// after the loop.
+func (b *B) ExitValues(fc *FC, from, idx, n *RF) map[AtomID]*RF {
+	s := b.X.S
+	out := map[AtomID]*RF{}
+	var k *RF
+	for _, ph := range fc.loopPhis(idx) {
+		if d, isC := idx.Sub(ph).IsConst(); isC && d.IsInt() {
+			k = ph
+		}
+	}
+	if k == nil {
+		return out
+	}
+	kat := k.SingleAtom()
+	_, kn := recurrenceOrNil(fc, k)
+	if kn == nil || !kn.Equal(k.Add(s.Int(1))) {
+		return out // (ascending scans only)
+	}
+	exitK := n.Sub(idx.Sub(k))
+	out[kat.ID] = exitK
+	phis := fc.loopPhis(from)
+	has := false
+	for _, p := range phis {
+		if p.Equal(k) {
+			has = true
+		}
+	}
+	if !has {
+		phis = append([]*RF{k}, phis...)
+	} else {
+		// the scan counter first, so that the others are written in terms of it
+		ord := []*RF{k}
+		for _, p := range phis {
+			if !p.Equal(k) {
+				ord = append(ord, p)
+			}
+		}
+		phis = ord
+	}
+	_, lock := b.lockStepCounters(fc, phis, 0)
+	for id, v := range lock {
+		out[id] = v.Subst(map[AtomID]*RF{kat.ID: exitK})
+	}
+	return out
+}
+
 type recSpec struct{ name, init, next string }
 
 // LoopSystem: find an assignment of the named loop variables to the
@@ -1599,6 +1700,9 @@ func (b *B) LoopSystem(rule, construct, where string, fc *FC, from *RF, env *Spe
 		b.R.Fail(rule, construct, where, fmt.Sprintf("expected %d loop-carried quantities, found %d", len(specs), len(phis)))
 		return nil
 	}
+	// counters of one loop that advance in lock-step (a range index next to a hand-kept
+	// count) are one quantity: the later ones are written in terms of the first
+	phis, lock := b.lockStepCounters(fc, phis, len(specs))
 	// an integer counter may play a stated role offset by one (a count of completed iterations
 	// where the formulas use the iteration number, or the reverse)
 	base := make([]int, len(phis)) // candidates sharing a loop-carried atom exclude one another
@@ -1626,6 +1730,11 @@ func (b *B) LoopSystem(rule, construct, where string, fc *FC, from *RF, env *Spe
 		in, nx := fc.Recurrence(p)
 		recs[i] = rec{in, nx}
 	}
+	if len(lock) > 0 {
+		for i := range recs {
+			recs[i] = rec{recs[i].init.Subst(lock), recs[i].next.Subst(lock)}
+		}
+	}
 	// iterations in which a latch flag flips (the single-exit form of an early return) carry
 	// values that can no longer reach the result: the recurrences are compared for the others
 	noflip := fc.noFlip(phis)
@@ -1648,6 +1757,9 @@ func (b *B) LoopSystem(rule, construct, where string, fc *FC, from *RF, env *Spe
 			if err != nil {
 				panic(specErr(err.Error()))
 			}
+			if len(lock) > 0 {
+				wi.RF = wi.RF.Subst(lock)
+			}
 			if !recs[assign[k]].init.Equal(wi.RF) {
 				if base[assign[k]] == assign[k] || best == "" {
 					best = fmt.Sprintf("%s: initial value %s, stated %s", sp.name, clip(recs[assign[k]].init.String(), 200), sp.init)
@@ -1659,6 +1771,9 @@ func (b *B) LoopSystem(rule, construct, where string, fc *FC, from *RF, env *Spe
 			wn, err := e.Parse(sp.next)
 			if err != nil {
 				panic(specErr(err.Error()))
+			}
+			if len(lock) > 0 {
+				wn.RF = wn.RF.Subst(lock)
 			}
 			nf := noflip
 			if len(nf) == 0 {
